@@ -27,6 +27,24 @@ template <typename T> const char *ftype_name() {
 }
 constexpr uint64_t BADVAL = 0xBADBADBAD;
 
+template <typename T> outcome read_future(cocls::future<T> &f, int *targets, int ntargets);
+// the same through the const overload of value() (a separate implementation in the library): must tell the same story
+template <typename T> outcome read_future_const(const cocls::future<T> &f, int *targets, int ntargets) {
+    outcome o;
+    try {
+        if constexpr (std::is_void_v<T>) { f.value(); o.state = PS_VALUE; o.val = 0; }
+        else if constexpr (std::is_reference_v<T>) {
+            const int &r = f.value();
+            o.state = PS_VALUE; o.val = BADVAL;
+            for (int i = 0; i < ntargets; i++) if (&r == &targets[i]) o.val = (uint64_t)i;
+        } else if constexpr (std::is_same_v<T, int>) { o.val = (uint64_t)f.value(); o.state = PS_VALUE; }
+        else { const auto &v = f.value(); o.state = PS_VALUE; o.val = v.ok() ? v.id : BADVAL; }
+    } catch (const vf::test_exc &e) { o.state = PS_EXC; o.code = e.code; }
+    catch (const cocls::await_canceled_exception &) { o.state = PS_CANCELED; }
+    catch (const cocls::value_not_ready_exception &) { o.state = PS_PENDING; }
+    catch (...) { o.state = PS_EXC; o.code = -99; }
+    return o;
+}
 // reads the result of a resolved future without blocking; targets: referents for future<int&>
 template <typename T> outcome read_future(cocls::future<T> &f, int *targets, int ntargets) {
     outcome o;
@@ -309,6 +327,7 @@ void future_round(const vf::opts &o, vf::report &R, vf::team &T_, uint64_t rn, u
         outcome o1 = read_future(*X.f, X.target, 4), o2 = read_future(*X.f, X.target, 4);
         if (!(o1 == expect)) e1 = "future holds " + o1.str() + " but the winner supplied " + expect.str();
         else if (!(o1 == o2)) e1 = "result changed between two reads";
+        else { outcome o3 = read_future_const<T>(*X.f, X.target, 4); if (!(o3 == o1)) e1 = "value() through a const reference reports " + o3.str() + " where the non-const read reports " + o1.str(); }
         if constexpr (std::is_same_v<T, tracked> || std::is_same_v<T, tracked_mo>) {
             long want_live = live0 + (expect.state == PS_VALUE ? 1 : 0);
             if (e1.empty() && tracked::live.load() != want_live) e1 = "payload instances alive: " + std::to_string(tracked::live.load() - live0) + ", expected " + std::to_string(want_live - live0);
